@@ -229,4 +229,92 @@ example :
 
 example : (List.range 7).map (calcAward { award := 50, gap := 1, num := 1, den := 2 }) = [50, 25, 13, 6, 3, 2, 1] := by decide
 
+-- ================================================================ 4. rounds that fail on a storage write, and the recovery
+
+/-! "replaying the block on a node that never saw the transactions yields the producer's state", total supply: whatever
+write of a round fails (`Ledger.ConfirmBlock`'s batch, the batch of `State.PlayForMiner`) and however many such rounds a
+history contains, the total the producer's state reports is the genesis amount plus the awards of exactly the blocks its
+state has applied — what a replica that replays those blocks reports. The variant that keeps the in-memory award of a
+`PlayForMiner` whose batch was not written (seeded change C13-13) counts that award twice after the recovery walk. -/
+
+theorem newestAwards_zero (t : List Blk) : newestAwards t 0 = 0 := by simp [newestAwards]
+
+theorem newestAwards_cons (b : Blk) (t : List Blk) (n : Nat) :
+    newestAwards (b :: t) (n + 1) = b.award + newestAwards t n := by
+  simp [newestAwards, List.take_succ_cons, List.sum_cons]
+
+/-- the recovery walk at the start of a round brings the state to the ledger tip and keeps the supply invariant -/
+theorem walkToTip_supply (g : Nat) (s : NodeS) (h : supplyOK g s) :
+    supplyOK g (walkToTip s) ∧ (walkToTip s).played = s.node.trunk.length ∧
+    (walkToTip s).total = g + newestAwards s.node.trunk s.node.trunk.length := by
+  obtain ⟨_, h2⟩ := h
+  refine ⟨⟨Nat.le_refl _, ?_⟩, rfl, ?_⟩
+  · show s.total + newestAwards s.node.trunk (s.node.trunk.length - s.played) +
+      newestAwards s.node.trunk (s.node.trunk.length - s.node.trunk.length) =
+      g + newestAwards s.node.trunk s.node.trunk.length
+    rw [Nat.sub_self, newestAwards_zero]; omega
+  · show s.total + newestAwards s.node.trunk (s.node.trunk.length - s.played) = _
+    exact h2
+
+/-- one round — clean, or failing on either write — keeps the supply invariant -/
+theorem roundS_supply (c : AwardCfg) (g : Nat) (s : NodeS) (f : Option Fault) (h : supplyOK g s) :
+    supplyOK g (roundS c false s f) := by
+  obtain ⟨hw, hp, ht⟩ := walkToTip_supply g s h
+  have htr : (walkToTip s).node.trunk = s.node.trunk := rfl
+  have hm : (mineRound c (walkToTip s).node 0).2.trunk = (mineRound c (walkToTip s).node 0).1 :: s.node.trunk := by
+    simp [mineRound, htr]
+  cases f with
+  | none =>
+    refine ⟨Nat.le_refl _, ?_⟩
+    show (walkToTip s).total + (mineRound c (walkToTip s).node 0).1.award +
+      newestAwards (mineRound c (walkToTip s).node 0).2.trunk
+        ((mineRound c (walkToTip s).node 0).2.trunk.length - (mineRound c (walkToTip s).node 0).2.trunk.length) =
+      g + newestAwards (mineRound c (walkToTip s).node 0).2.trunk (mineRound c (walkToTip s).node 0).2.trunk.length
+    rw [Nat.sub_self, newestAwards_zero, hm, List.length_cons, newestAwards_cons, ht]; omega
+  | some f =>
+    cases f with
+    | ledger => exact hw
+    | state =>
+      refine ⟨?_, ?_⟩
+      · show (walkToTip s).played ≤ (mineRound c (walkToTip s).node 0).2.trunk.length
+        rw [hm, hp, List.length_cons]; omega
+      · show (walkToTip s).total + newestAwards (mineRound c (walkToTip s).node 0).2.trunk
+          ((mineRound c (walkToTip s).node 0).2.trunk.length - (walkToTip s).played) =
+          g + newestAwards (mineRound c (walkToTip s).node 0).2.trunk (mineRound c (walkToTip s).node 0).2.trunk.length
+        rw [hm, hp, List.length_cons, Nat.add_sub_cancel_left, newestAwards_cons, newestAwards_cons,
+          newestAwards_zero, ht]; omega
+
+/-- histories: any sequence of rounds, any of them failing on either write -/
+theorem runRoundsS_supply (c : AwardCfg) (g : Nat) (rounds : List (List Task × Option Fault)) (s : NodeS)
+    (h : supplyOK g s) : supplyOK g (runRoundsS c false s rounds) := by
+  induction rounds generalizing s with
+  | nil => exact h
+  | cons r rest ih =>
+    obtain ⟨adds, f⟩ := r
+    exact ih _ (roundS_supply c g _ f h)
+
+/-- after a failed `PlayForMiner` write and the recovery (the walk at the start of the next round), the producer reports
+the genesis amount plus the awards of its whole trunk: the figure of a node that replayed the blocks -/
+theorem recovered_total_is_replayed_total (c : AwardCfg) (g : Nat) (s : NodeS) (h : supplyOK g s) :
+    let s' := walkToTip (roundS c false s (some .state))
+    s'.played = s'.node.trunk.length ∧ s'.total = g + newestAwards s'.node.trunk s'.node.trunk.length := by
+  have := walkToTip_supply g _ (roundS_supply c g s (some .state) h)
+  exact ⟨this.2.1, this.2.2⟩
+
+/-- the variant that does not roll the in-memory award back: one failed state write, then a clean round — the award of
+the unplayed block is counted twice (total 250 where a replica reports 200) -/
+theorem kept_award_counted_twice :
+    let c : AwardCfg := { award := 50 }
+    let s0 : NodeS := { total := 100 }
+    supplyOK 100 s0 ∧ ¬ supplyOK 100 (runRoundsS c true s0 [([], some .state), ([], none)]) ∧
+    (runRoundsS c true s0 [([], some .state), ([], none)]).total = 250 ∧
+    (runRoundsS c false s0 [([], some .state), ([], none)]).total = 200 := by decide
+
+-- non-vacuity: a history with both kinds of failing rounds, a decaying award and a timer registration
+example :
+    let c : AwardCfg := { award := 1000, gap := 2, num := 1, den := 2 }
+    let rs : List (List Task × Option Fault) := [([], none), ([⟨4, 1⟩], some .state), ([], some .ledger), ([], some .state), ([], none)]
+    let s := runRoundsS c false { total := 7 } rs
+    supplyOK 7 s ∧ s.node.trunk.map (·.award) = [250, 500, 500, 1000] ∧ s.total = 2257 ∧ s.played = 4 := by decide
+
 end XV.C13Miner
